@@ -28,24 +28,24 @@ func (st *State) intrinsic(g *G, fr *Frame, name string, fn *ssa.Function, args 
 		return True, false
 	case "Bool":
 		v := st.freshVar(constStr(args[0]), SBool)
-		st.draws = append(st.draws, Draw{Name: constStr(args[0]), Kind: "bool", Term: v.S})
+		st.draws = append(st.draws, Draw{Name: constStr(args[0]), Kind: "bool", Term: v.S, T: v})
 		return v, false
 	case "Int":
 		v := st.freshVar(constStr(args[0]), SBV(64))
 		st.assume(And(Cmp(">=", v, args[1].(*Term), true), Cmp("<=", v, args[2].(*Term), true)))
-		st.draws = append(st.draws, Draw{Name: constStr(args[0]), Kind: "int", Term: v.S})
+		st.draws = append(st.draws, Draw{Name: constStr(args[0]), Kind: "int", Term: v.S, T: v})
 		return v, false
 	case "Uint":
 		v := st.freshVar(constStr(args[0]), SBV(64))
-		st.draws = append(st.draws, Draw{Name: constStr(args[0]), Kind: "uint", Term: v.S})
+		st.draws = append(st.draws, Draw{Name: constStr(args[0]), Kind: "uint", Term: v.S, T: v})
 		return v, false
 	case "Byte":
 		v := st.freshVar(constStr(args[0]), SBV(8))
-		st.draws = append(st.draws, Draw{Name: constStr(args[0]), Kind: "byte", Term: v.S})
+		st.draws = append(st.draws, Draw{Name: constStr(args[0]), Kind: "byte", Term: v.S, T: v})
 		return v, false
 	case "Str":
 		v := st.freshVar(constStr(args[0]), SStr)
-		st.draws = append(st.draws, Draw{Name: constStr(args[0]), Kind: "str", Term: v.S})
+		st.draws = append(st.draws, Draw{Name: constStr(args[0]), Kind: "str", Term: v.S, T: v})
 		return v, false
 	case "StrMax":
 		var v *Term
@@ -55,11 +55,11 @@ func (st *State) intrinsic(g *G, fr *Frame, name string, fn *ssa.Function, args 
 			v = st.freshVar(constStr(args[0]), SStr)
 			st.assume(Cmp("<=", StrLen(v), args[1].(*Term), true))
 		}
-		st.draws = append(st.draws, Draw{Name: constStr(args[0]), Kind: "str", Term: v.S})
+		st.draws = append(st.draws, Draw{Name: constStr(args[0]), Kind: "str", Term: v.S, T: v})
 		return v, false
 	case "Bytes":
 		v := st.freshVar(constStr(args[0]), SStr)
-		st.draws = append(st.draws, Draw{Name: constStr(args[0]), Kind: "bytes", Term: v.S})
+		st.draws = append(st.draws, Draw{Name: constStr(args[0]), Kind: "bytes", Term: v.S, T: v})
 		return BytesVal{S: v, IsNil: False}, false
 	case "Choice":
 		n := int(args[1].(*Term).U)
@@ -323,6 +323,32 @@ func (st *State) intrinsic(g *G, fr *Frame, name string, fn *ssa.Function, args 
 		}
 		st.fail("engine-error", "FieldStr: no scalar field "+fname)
 		return nil, false
+	case "OrB":
+		return Or(args[0].(*Term), args[1].(*Term)), false
+	case "AndB":
+		return And(args[0].(*Term), args[1].(*Term)), false
+	case "NotB":
+		return Not(args[0].(*Term)), false
+	case "IteInt":
+		return Ite(args[0].(*Term), args[1].(*Term), args[2].(*Term)), false
+	case "BytesInRange":
+		// every byte of s lies in [lo,hi] and is none of the bytes of `except` (one term, no forking)
+		s := st.strArg(args[0])
+		lo, hi := args[1].(*Term), args[2].(*Term)
+		ex := constStr(args[3])
+		if s.BS == nil && !s.Const {
+			st.fail("unsupported", "BytesInRange needs byte-vector strings (-bvstr)")
+		}
+		b := bsOf(s)
+		r := True
+		for i, bt := range b.B {
+			ok := And(Cmp(">=", bt, lo, false), Cmp("<=", bt, hi, false))
+			for k := 0; k < len(ex); k++ {
+				ok = And(ok, Not(bvEq(bt, BV(8, uint64(ex[k])))))
+			}
+			r = And(r, Or(Cmp("<=", b.Len, idx64(i), false), ok))
+		}
+		return r, false
 	case "StartAccessLog":
 		st.logAccess = true
 		return nil, false
